@@ -159,9 +159,26 @@ _MATS = {
 }
 
 
+# Gate names whose definition in force follows a shifted convention (an injected definition
+# that must take precedence over an imported one of the same name).
+REF_SHIFT = {}
+
+
+def _shifted(fn, argv, shift):
+    global VARIANT
+    if not shift:
+        return fn(*argv)
+    old = VARIANT
+    VARIANT = (old + shift) % 4
+    try:
+        return fn(*argv)
+    finally:
+        VARIANT = old
+
+
 def matrix(name, nums):
     """Reference-side matrix of a gate at its classical arguments."""
-    return np.asarray(_MATS[name](*nums), dtype=complex)
+    return np.asarray(_shifted(_MATS[name], nums, REF_SHIFT.get(name, 0)), dtype=complex)
 
 
 def base_name(name):
@@ -189,7 +206,7 @@ def all_gate_names(idle=True):
     return names
 
 
-def build_gateset(idle=True, style="direct"):
+def build_gateset(idle=True, style="direct", shift=0):
     """Real jaqalpaq definitions over the synthetic matrices (import inside: the caller
     decides which jaqalpaq source tree is on sys.path).  style="copied" derives gates of
     equal signature from one another through the public AbstractGate.copy(), the way
@@ -208,7 +225,7 @@ def build_gateset(idle=True, style="direct"):
             cb = CALLBACK
             if cb is not None:
                 cb(_name, argv)
-            return _fn(*argv)
+            return _shifted(_fn, argv, shift)
 
         unitary.__qualname__ = "simgate_" + name
         return unitary
